@@ -18,6 +18,9 @@ type Finding struct{ Class, Detail string }
 // per-message flags with the replies the server actually sent at end-of-data.
 func OracleC03(c *Case, r *Result) []Finding {
 	var out []Finding
+	if r.Panic != "" {
+		out = append(out, Finding{"send-panic-" + r.PanicWhere, fmt.Sprintf("Send panicked: %s", r.Panic)})
+	}
 	if !r.DialOK {
 		if len(r.Commits) > 0 {
 			out = append(out, Finding{"commit-without-send", "the dial failed but the server committed a message"})
@@ -193,6 +196,9 @@ const (
 // OracleC20 recomputes, from the replies the server actually sent, what the SendError of every message has to say.
 func OracleC20(c *Case, r *Result) []Finding {
 	var out []Finding
+	if r.Panic != "" {
+		return []Finding{{"send-panic-" + r.PanicWhere, fmt.Sprintf("Send panicked: %s", r.Panic)}}
+	}
 	if !r.DialOK {
 		return out
 	}
@@ -332,9 +338,8 @@ func OracleC20(c *Case, r *Result) []Finding {
 				out = append(out, Finding{"rcpt-list-mismatch", fmt.Sprintf("message %d: rejected recipients %v, SendError lists %v", j, rejected, m.Rcpts)})
 			}
 			if verdict == nil {
-				if step == reasonWrite && (m.Code != 0 || m.Temp || m.ESC != "") {
-					out = append(out, Finding{"code-mismatch", fmt.Sprintf("message %d: rendering failed but the SendError carries code %d temp %v esc %q", j, m.Code, m.Temp, m.ESC)})
-				}
+				// no reply involved (render failure, rejected connection check): the property speaks about replies only;
+				// go-mail classifies such errors by their text as well (by design, see senderror_test.go)
 				break
 			}
 			if verdict.Code >= 400 && verdict.Code <= 599 {
